@@ -130,5 +130,8 @@ Prefix == \A e \in Ends : \A i \in 1..Len(rBuf[e]) : rBuf[e][i] = i /\ i <= wrot
 EOFAfterData == \A e \in Ends : (rClosed[e] /\ st[e] \in {"closeWait", "lastAck", "closing"} /\ finSent[Peer(e)])
                                    => Len(rBuf[e]) = wrote[Peer(e)]
 SenderNumbering == \A e \in Ends : \A i \in 1..Len(sf[e]) : sf[e][i].no = sAck[e] + i - 1
+(* C16 at protocol level: an end that waits for closure while its peer is gone and nothing is in flight can *)
+(* only be released by a timer - the code has one for lastAck, none for finWait1 / finWait2.                *)
+NoOrphan == \A e \in Ends : ~(st[e] \in {"finWait1", "finWait2"} /\ st[Peer(e)] = "closed" /\ net[e] = {})
 View == <<st, sf, sAck, sNext, finSent, wrote, rNext, rFrags, rBuf, rClosed, net, loss, dup, tx>>
 =============================================================================
